@@ -151,7 +151,11 @@ def run(c):
                           'deviation TopOnly', what='ClosedWhenInvocationEnds')
     # 70 openings pending at once on one thread (a chain of 80 distinct functions, a method span on the first 70)
     deep = ([M(i + 1, 'a', 'chain_%d' % i, 'method') for i in range(70)], [[('a.chain_0', [])]])
-    traces, meta = c03.run_scenarios(c, rng, wd, 60 if quick else 1500, 0.8, 'spans', 's', curated=CURATED + [deep])
+    # a deferred snapshot and a span opened by the same event; when the invocation ends the hand-over of the snapshot is
+    # refused (delivery was closed meanwhile): the span is completed all the same
+    refused = ([dict(M(1, 'a', 'g', 'capture'), refuse_push=True), M(2, 'a', 'g', 'method')],
+               [[('a.f', [('call', 'a.g', [('line',)]), ('line',)])]])
+    traces, meta = c03.run_scenarios(c, rng, wd, 60 if quick else 1500, 0.8, 'spans', 's', curated=CURATED + [deep, refused])
     c03.validate(c, traces, meta, lambda m: m['closes'] >= 2)
     c.extra['spans_closed'] = sum(m['closes'] for m in meta)
     # capture tracepoints (deferred snapshots): completed once, on their thread, with the opening invocation's result
